@@ -312,6 +312,7 @@ Definition validate_pp (t : tstate) (r : bref) (s : ssig) : bool :=
 (* HandlePrePrepare *)
 Definition handle_pp (x : tc) (r : bref) (s : ssig) (b : option block) : tc :=
   if negb (validate_pp (tc_t x) r s) then x else
+  if negb (N.eqb (tc_v x) (r_view r)) then x else      (* a proposal of another view is dropped before ValidateBlockProposal *)
   if negb (ctx_ok (r_height r, r_view r)) then x else
   if negb (validProposal (c_me c) (r_height r) b (r_hash r)) then x else
   process_pp x r s b.
